@@ -197,6 +197,12 @@ def corpus(r, max_n=40, risky_rate=0.04, allow_none=True):
             if items[i] is not None:
                 items[i] = r.pick([' ', '  ', '\t']) + items[i] + r.pick(
                     ['', ' ', '\n'])
+    if r.chance(0.1):
+        # blank (whitespace-only) examples: with strip they become empties
+        # that were nevertheless supplied non-empty
+        for _ in range(r.randint(1, 2)):
+            items.insert(r.randrange(len(items) + 1),
+                         r.pick([' ', '\t', '  ', '\n', ' \t ']))
     info = {'classes': classes, 'families': fams, 'mode': mode,
             'risky': sorted(set(classes) & set(RISKY))}
     return items, info
